@@ -14,7 +14,8 @@ def describe(tier):
         "positions; ordered selections for <=2 entries, both orders of every 3-subset), every common value from the same alphabet, every "
         "assignment of row-id arrays from %r (3 entries: %r): saved with IndxIO.save and re-read with IndxIO.load. Non-trivial: at least one "
         "entry and the needed index word size differs between the coordinates and the common value, or an empty row-id array is present, "
-        "or arity >= 3. Distinct = distinct (keys, arrays, common)." % (maxn, indx.ALPHA, indx.ROWIDS5, indx.ROWIDS3),
+        "or arity >= 3. Plus files whose entries have very different lengths: every ordered pair of lengths from %r and triples short/long/short, long/empty/short, short/long/long. "
+        "Distinct = distinct (keys, arrays, common)." % (maxn, indx.ALPHA, indx.ROWIDS5, indx.ROWIDS3, indx.MIXED_LENGTHS),
         "bounds": {"arity": [1, 4], "entries": [0, maxn], "alphabet": [str(a) for a in indx.ALPHA]},
         "exhaustive": True,
         "assumptions": ["row-id arrays are limited to the five shapes listed (empty, singleton, small, max, min+max)", "files live on tmpfs (/dev/shm)"],
@@ -22,13 +23,13 @@ def describe(tier):
 
 
 def blocks(tier):
-    return indx.family_blocks(tier)
+    return indx.family_blocks(tier) + [("mixed", {"i": i}) for i in range(len(indx.mixed_cases()))]
 
 
-def check_case(keys, arrays, common, acc):
+def check_case(keys, arrays, common, acc, case=None):
     from catii.iindexes import iindex
 
-    case = {"keys": keys, "arrays": arrays, "common": common}
+    case = case or {"keys": keys, "arrays": arrays, "common": common}
     try:
         blob = indx.lib_save(keys, arrays, common)
     except Exception as e:  # noqa
@@ -79,6 +80,11 @@ def nontrivial(keys, arrays, common):
 
 
 def run_block(family, p, acc):
+    if family == "mixed":
+        lengths = indx.mixed_cases()[p["i"]]
+        check_case(indx.mixed_keys(lengths), indx.mixed_arrays(lengths), 3, acc, case={"mixed_lengths": lengths})
+        acc.case(("mixed", tuple(lengths)), nontrivial=True, outcome=("mixed", len(lengths)), sample={"entry_lengths": lengths})
+        return
     for keys, arrays, common in indx.cases_of_block(p):
         check_case(keys, arrays, common, acc)
         acc.case((tuple(keys), tuple(map(tuple, arrays)), common), nontrivial=nontrivial(keys, arrays, common),
@@ -90,7 +96,11 @@ def replay(case, site=None):
     from ..core import Acc
 
     acc = Acc(ID, [], stop_at_first=False)
-    check_case([tuple(k) for k in case["keys"]], case["arrays"], case["common"], acc)
+    if "mixed_lengths" in case:
+        lengths = case["mixed_lengths"]
+        check_case(indx.mixed_keys(lengths), indx.mixed_arrays(lengths), 3, acc, case=case)
+    else:
+        check_case([tuple(k) for k in case["keys"]], case["arrays"], case["common"], acc)
     for v in acc.violations:
         print("  %s :: %s" % (v["site"], v["detail"]))
     return bool(acc.violations)
